@@ -37,6 +37,7 @@ type ExtType struct {
 	Name     string
 	Parents  []string
 	Disjoint []string // declared disjointWith (own or as: types)
+	Typeless bool     // "@wtf_typeless": no 'type' property (can only occur embedded)
 }
 
 // ExtProp describes one extension property.
@@ -70,13 +71,16 @@ func (v ExtVocab) JSON() []byte {
 			dj = append(dj, classRef(d))
 		}
 		m := M{"id": extURI + "#" + t.Name, "type": "owl:Class", "name": t.Name, "url": extURI + "#dfn-" + t.Name, "disjointWith": dj}
+		if t.Typeless {
+			m["@wtf_typeless"] = true
+		}
 		ps := L{}
 		for _, p := range t.Parents {
 			ps = append(ps, classRef(p))
 		}
 		if len(ps) == 1 {
 			m["subClassOf"] = ps[0]
-		} else {
+		} else if len(ps) > 1 {
 			m["subClassOf"] = ps
 		}
 		members = append(members, m)
@@ -103,31 +107,47 @@ func (v ExtVocab) JSON() []byte {
 }
 
 var extTypes = []ExtType{
-	{"Alpha", []string{"as:Object"}, nil},
-	{"Beta", []string{"Alpha"}, nil},
-	{"Gamma", []string{"as:Activity"}, nil},
-	{"Delta", []string{"Beta"}, nil},               // two levels below Alpha
-	{"Epsilon", []string{"as:Note", "Alpha"}, nil}, // multiple parents
-	{"Zeta", []string{"as:Link"}, nil},
-	{"Eta", []string{"as:Collection"}, nil},
-	{"Theta", []string{"Delta"}, nil},                           // three levels below Alpha
-	{"Iota", []string{"as:Object"}, []string{"as:Activity"}},    // disjoint with a type of the referenced vocabulary
-	{"Kappa", []string{"Alpha"}, []string{"Gamma", "as:Place"}}, // disjoint with an own type and a foreign one
+	{"Alpha", []string{"as:Object"}, nil, false},
+	{"Beta", []string{"Alpha"}, nil, false},
+	{"Gamma", []string{"as:Activity"}, nil, false},
+	{"Delta", []string{"Beta"}, nil, false},               // two levels below Alpha
+	{"Epsilon", []string{"as:Note", "Alpha"}, nil, false}, // multiple parents
+	{"Zeta", []string{"as:Link"}, nil, false},
+	{"Eta", []string{"as:Collection"}, nil, false},
+	{"Theta", []string{"Delta"}, nil, false},                           // three levels below Alpha
+	{"Iota", []string{"as:Object"}, []string{"as:Activity"}, false},    // disjoint with a type of the referenced vocabulary
+	{"Kappa", []string{"Alpha"}, []string{"Gamma", "as:Place"}, false}, // disjoint with an own type and a foreign one
 	// two parents of which only ONE branch has an ancestor that withholds a property ('object' is
 	// withheld from as:IntransitiveActivity, the parent of as:Travel; as:Offer has it)
-	{"Lambda", []string{"as:Travel", "as:Offer"}, nil},
-	{"Mu", []string{"Lambda"}, nil},
+	{"Lambda", []string{"as:Travel", "as:Offer"}, nil, false},
+	{"Mu", []string{"Lambda"}, nil, false},
 	// two own-vocabulary paths to Alpha, one of them through Beta (from which properties are withheld)
-	{"Nu", []string{"Alpha", "Delta"}, nil},
+	{"Nu", []string{"Alpha", "Delta"}, nil, false},
 	// lattice shapes: a parent list that names an ancestor which is already reached through an earlier
 	// parent BEFORE a parent that is new (and the redundant-parent form)
-	{"Auditable", []string{"as:Object"}, nil},
-	{"Dossier", []string{"as:Object"}, nil},
-	{"Ledger", []string{"as:Object", "Auditable"}, nil},
-	{"Bulletin", []string{"Dossier", "Ledger"}, nil},
-	{"Chapter", []string{"Dossier"}, nil},
-	{"Folio", []string{"Chapter", "as:Object", "Auditable"}, []string{"Gamma"}},
-	{"Leaflet", []string{"Folio", "Bulletin"}, nil},
+	{"Auditable", []string{"as:Object"}, nil, false},
+	{"Dossier", []string{"as:Object"}, nil, false},
+	{"Ledger", []string{"as:Object", "Auditable"}, nil, false},
+	{"Bulletin", []string{"Dossier", "Ledger"}, nil, false},
+	{"Chapter", []string{"Dossier"}, nil, false},
+	{"Folio", []string{"Chapter", "as:Object", "Auditable"}, []string{"Gamma"}, false},
+	{"Leaflet", []string{"Folio", "Bulletin"}, nil, false},
+	// a typeless type without parents, as the shipped PublicKey is
+	{"Omicron", nil, nil, true},
+}
+
+// TypelessChildVocab: a typeless type BELOW a typed one. Being a descendant of as:Object it is a kind
+// of every Object-ranged property, and having no 'type' it matches every embedded object, so the
+// generated decoder reads e.g. an embedded Question as this type (the re-encoded @context then names
+// the extension). That is a recorded finding (thorough tier), judged by the exact set of C12 driver
+// keys; a change that makes other cells wrong (e.g. the typeless type getting 'type' back) differs.
+func TypelessChildVocab() ExtVocab {
+	return ExtVocab{Label: "typeless-child", Types: []ExtType{
+		{"Alpha", []string{"as:Object"}, nil, false},
+		{"Omicron", []string{"Alpha"}, nil, true},
+	}, Props: []ExtProp{
+		{Name: "vxo1", Domain: []string{"as:Object"}, Range: []string{"Omicron"}, Functional: true},
+		{Name: "vxo2", Domain: []string{"Omicron"}, Range: []string{"xsd:string"}, Functional: true}}}
 }
 
 // NameClashVocab: a type that shares its NAME with a type of the referenced vocabulary (as the
@@ -138,10 +158,10 @@ var extTypes = []ExtType{
 // level a bare type name is ambiguous by construction.
 func NameClashVocab() ExtVocab {
 	return ExtVocab{Label: "name-clash", Types: []ExtType{
-		{"Update", []string{"as:Activity"}, nil},
-		{"Patch", []string{"Update"}, nil},
-		{"Hotfix", []string{"Patch"}, nil},
-		{"Sigma", []string{"as:Object"}, []string{"Update"}},
+		{"Update", []string{"as:Activity"}, nil, false},
+		{"Patch", []string{"Update"}, nil, false},
+		{"Hotfix", []string{"Patch"}, nil, false},
+		{"Sigma", []string{"as:Object"}, []string{"Update"}, false},
 	}, Props: []ExtProp{{Name: "vnc1", Domain: []string{"Update"}, Range: []string{"xsd:string"}, Functional: true}}}
 }
 
@@ -168,6 +188,13 @@ func FullVocab(stride int) ExtVocab {
 			}
 		}
 	}
+	// a property whose domain names a type AND one of its descendants while being withheld from a type
+	// strictly between them; a property ranging over the typeless type (which hosts it in documents)
+	v.Props = append(v.Props,
+		ExtProp{Name: "vxw1", Domain: []string{"Alpha", "Delta"}, Range: []string{"xsd:string"}, Functional: true, Without: []string{"Beta"}},
+		ExtProp{Name: "vxw2", Domain: []string{"Alpha", "Theta"}, Range: []string{"as:Object"}, Without: []string{"Delta"}},
+		ExtProp{Name: "vxo1", Domain: []string{"as:Object"}, Range: []string{"Omicron"}, Functional: true},
+		ExtProp{Name: "vxo2", Domain: []string{"Omicron"}, Range: []string{"xsd:string"}, Functional: true})
 	return v
 }
 
